@@ -172,7 +172,7 @@ def compare(m1, m2, digits=17, align=False):
             S = max(float(np.abs(a64).max()), float(np.abs(b64).max()))
             if re.search(r"pos|aabb|rbound|vert|node|length", k):
                 S = max(S, extent)  # lengths: an absolute floor scaled by the model extent
-            lim = tol * np.maximum(np.abs(a64), np.abs(b64)) + tol * S
+            lim = tol * np.maximum(np.abs(a64), np.abs(b64)) + tol * S + 1e-25  # the floor: a numerically-zero quantity (1e-33) is rounding noise
             r = float((ad / (S + 1e-300)).max())
             info["max_derived"] = max(info["max_derived"], r)
             if (ad > lim).any():
@@ -906,8 +906,9 @@ def roundtrip(P, L, c, spec, m1, name, tags, src):
         m2 = L.compile(spec2)
     except drv.MjError as e:
         msg = str(e)
+        P.case("%s|%s|saved-text-rejected" % (c["kind"], path), sample=None)
         el = re.search(r"Element '(\w+)'", msg)
-        if "fusestatic" in c["_src_flags"] and ("not found" in msg or "unrecognized name" in msg) and ("<frame" in src or "<replicate" in src):
+        if "fusestatic" in c["_src_flags"] and re.search(r"not found|unrecognized name|unknown element", msg) and ("<frame" in src or "<replicate" in src):
             P.violation("fusestatic-elements-inside-frames-dropped-from-saved-xml", {"case": {k: c[k] for k in c if k != "xml"}, "model": name, "message": msg})
             return
         P.violation("saved-text-rejected:" + re.sub(r"'[^']*'", "'..'", re.sub(r"[0-9]+", "N", msg.splitlines()[0]))[:80] + (":element-" + el.group(1) if el else ""),
